@@ -89,8 +89,25 @@ func main() {
 		rep.Packages = append(rep.Packages, p.path)
 		rw := &rewriter{fset: fset, info: info, pkg: tpkg, rep: &rep, nextID: &nextID, shared: map[types.Object]int{}, nameOf: map[int]string{}}
 		rw.findSharedGlobals(files, p.path)
+		// registration of the package-level shared variables (reset before every execution)
+		regFile := map[*ast.File][]ast.Stmt{}
+		for o, id := range rw.shared {
+			if !rw.isPkgVar(o) {
+				continue
+			}
+			for _, f := range files {
+				if f.Pos() <= o.Pos() && o.Pos() <= f.End() {
+					regFile[f] = append(regFile[f], &ast.ExprStmt{X: call("RegisterGlobal", &ast.BasicLit{Kind: token.INT, Value: fmt.Sprint(id)}, &ast.UnaryExpr{Op: token.AND, X: ast.NewIdent(o.Name())})})
+				}
+			}
+		}
 		for i, f := range files {
 			changed := rw.file(f)
+			if regs := regFile[f]; len(regs) > 0 {
+				f.Decls = append(f.Decls, &ast.FuncDecl{Name: ast.NewIdent("init"), Type: &ast.FuncType{Params: &ast.FieldList{}}, Body: &ast.BlockStmt{List: regs}})
+				rep.Counts["registered_globals"] += len(regs)
+				changed = true
+			}
 			if !changed {
 				continue
 			}
